@@ -19,7 +19,7 @@ import (
 func runOne(t *testing.T, c *Case, work, sched *choice.Source, out *wproto.Out, id int) {
 	out.Begin(id)
 	out.SetOnStuck(func() {
-		c.Work, c.Sched = work.Tape(), sched.Tape()
+		c.Work, c.Sched, c.Pol = work.Tape(), sched.Tape(), sched.AuxTape()
 		out.Finding(id, "livelock|never-returned", "livelock", "the run exceeded its scheduler step budget and, left to run freely, still had not returned three seconds later: an endless loop", c)
 		out.End(id, []string{"livelock|never-returned"})
 		out.Count("evaluations", 1)
@@ -58,6 +58,11 @@ func runOne(t *testing.T, c *Case, work, sched *choice.Source, out *wproto.Out, 
 		out.Sample(map[string]any{"case": id, "what": st.Desc, "sched_steps": st.Steps, "preemptions": st.Preempt, "samples": st.Samples, "early_stopped_pixels": st.EarlyStops}, 10)
 	}
 	out.Remember(c)
+	simsched.FlushTotals(out.Count, func(name string, n int64) {
+		if n > out.Counters[name] {
+			out.Counters[name] = n
+		}
+	})
 	out.Tick(64)
 }
 
@@ -93,7 +98,7 @@ func TestWorker(t *testing.T) {
 				runOne(t, &c, choice.New(c.Seed, fmt.Sprint("c20-work-", c.Index)), choice.New(c.Seed, fmt.Sprint("c20-sched-", c.Index)), out, i)
 				continue
 			}
-			runOne(t, &c, choice.Replay(c.Work), choice.Replay(c.Sched), out, i)
+			runOne(t, &c, choice.Replay(c.Work), choice.ReplayAux(c.Sched, c.Pol), out, i)
 		}
 		out.Finish("done", len(job.Cases))
 	case "dump":
